@@ -467,6 +467,11 @@ def run(ctx):
         "routine sections) and every truncation of some, implementation vs extracted mirror transcript equality. "
         "non-trivial = A: needs escape rewriting or has a header or start states; B: the result has rules or errors; distinct by case line")
     ctx.coverage["exhaustive"] = False
+    # the PROVED round trip (C11/Round.v): the formal printer's text goes through the real parser
+    rule_ab = ctx.coverage["rule"]
+    from checks import c11_round
+    c11_round.run_part(ctx)
+    ctx.coverage["rule"] = rule_ab + " || round trip: " + str(ctx.coverage.get("rule", ""))
     ctx.assumptions += [
         "the %grmtools section parser is not mirrored here (theories/C12): its end position and the flags it yields are inputs of the mirror, taken from the public GrmtoolsSectionParser/LexFlags::try_from",
         "Rule::new (regex compilation) is opaque to the mirror: which rule line fails to compile is an input of the mirror (taken from the implementation's RegexError); regex semantics are decided by the regex crate in the harness",
